@@ -130,9 +130,20 @@ func genWriters(g *rng.Rand, W, B, nIDs int) ([][]corpus.Batch, []string, []stri
 	}
 	ver := 0
 	out := make([][]corpus.Batch, W)
+	// hot-key variant: very few ids and tiny batches, so that whole segments are
+	// obsoleted by the next batch (segments that die before they are persisted or merged)
+	hot := g.Chance(1, 3)
+	if hot && nIDs > 2 {
+		nIDs = g.Range(1, 2)
+		ids = ids[:nIDs]
+	}
 	for w := 0; w < W; w++ {
 		for b := 0; b < B; b++ {
-			ops := corpus.GenOps(g, g.Range(1, 4), nIDs)
+			n := g.Range(1, 4)
+			if hot {
+				n = g.Range(1, 2)
+			}
+			ops := corpus.GenOps(g, n, nIDs)
 			for i := range ops {
 				if ops[i].Kind == "index" {
 					ver++
@@ -318,7 +329,11 @@ func runGated(r *ev.Run, dir string, cfg cfgT, seed uint64, policy string) (stri
 		}
 		// a file scheduled for an online copy that was on disk stays on disk while it is scheduled
 		vs0 := rn.S.VerifState()
+		scheduled := map[string]int{}
 		for f, n := range vs0.CopyScheduled {
+			scheduled[filepath.Base(f)] += n // (the key is expected to be a base name)
+		}
+		for f, n := range scheduled {
 			if n <= 0 {
 				continue
 			}
@@ -331,7 +346,7 @@ func runGated(r *ev.Run, dir string, cfg cfgT, seed uint64, policy string) (stri
 			}
 		}
 		for f := range seenScheduled {
-			if vs0.CopyScheduled[f] <= 0 {
+			if scheduled[f] <= 0 {
 				delete(seenScheduled, f)
 			}
 		}
@@ -521,15 +536,30 @@ func runGated(r *ev.Run, dir string, cfg cfgT, seed uint64, policy string) (stri
 	if problem == "" && !res.TimedOut {
 		if open := openFDsUnder(idxDir); len(open) > 0 {
 			problem = "fd-open-after-close"
-			wit = &witness{Config: cfg.Name, Seed: seed, Writers: writers, Detail: fmt.Sprintf("after Close these files of the index are still open: %v", open)}
+			wit = &witness{Config: cfg.Name, Seed: seed, Writers: writers, Detail: fmt.Sprintf("after Close these files of the index are still open or mapped: %v", open)}
 		}
 	}
 	return problem, wit, st, res.TimedOut
 }
 
+// openFDsUnder lists the files under dir that the process still has open or
+// memory mapped (a leaked *os.File may already have been closed by its
+// finalizer, the mapping of a leaked segment stays).
 func openFDsUnder(dir string) []string {
 	ents, _ := os.ReadDir("/proc/self/fd")
 	var out []string
+	if b, err := os.ReadFile("/proc/self/maps"); err == nil {
+		seen := map[string]bool{}
+		for _, l := range strings.Split(string(b), "\n") {
+			if i := strings.Index(l, dir+"/"); i >= 0 {
+				f := "mmap:" + strings.TrimPrefix(l[i:], dir+"/")
+				if !seen[f] {
+					seen[f] = true
+					out = append(out, f)
+				}
+			}
+		}
+	}
 	for _, e := range ents {
 		t, err := os.Readlink(filepath.Join("/proc/self/fd", e.Name()))
 		if err == nil && strings.HasPrefix(t, dir+"/") {
